@@ -40,6 +40,9 @@ theorem C26_source_shape :
        "await(self._decorated.send_event)", "endwith"] ∧
     GenLifecycleShape.shape_ir_reload =
       ["if(In;_active_run_ids)", "return", "endif", "await(self._store.query)", "if(NotEq;)", "raise", "endif",
+       -- (repair 0a15aa0) a run whose stored status is terminal is not reloaded; runs of this model never end,
+       -- so the early return has no counterpart among the model's actions
+       "call(_)", "if(;status,_)", "return", "endif",
        "call(self._persistence.get_tracked_workflow)", "if(Is;None)", "raise", "endif",
        "await(self._persistence.context_from_ticks)", "call(_.run)", "call(self._active_run_ids.add)",
        "await(self._store.update_handler_status;idle_since=None)"] ∧
